@@ -1,20 +1,13 @@
 (* DefsFrag.v — executable premise of the meaning theorem for serialize_json WITH caller-supplied
    definitions (Proofs/C03Defs.v): the primary and every definition lie in the fragment of C17's class
    congruence, every object class met below a node and every caller definition has its own document
-   under its name / key in the emitted "definitions", and a definition is not deeper than a node it
-   equals (true of every pair of equal trees; checked instead of proved). *)
+   under its name / key in the emitted "definitions". *)
 From Coq Require String. Import String.StringSyntax.
 From Coq Require Import List Bool Arith.
 From Statham.Model Require Import Str Json Elem Sub Equality SerJson ClsFrag RunSer.
 Import ListNotations.
 Local Open Scope string_scope.
 Local Open Scope list_scope.
-
-Fixpoint depth_f (fuel : nat) (y : elem) : nat :=
-  match fuel with
-  | O => O
-  | S f => S (fold_right Nat.max 0 (map (depth_f f) (children y)))
-  end.
 
 Fixpoint nodes_all (fuel : nat) (roots : list elem) : option (list elem) :=
   match roots with
@@ -37,8 +30,5 @@ Definition cd_okb (cd : list (str * elem)) (classes : list elem) (fuel : nat) (e
   | Some ns =>
     goodcb fuel e && forallb (fun kd => goodcb fuel (snd kd)) cd &&
     forallb (fun y => forallb (fun x => match x with EObj n _ _ => has_doc cd DJ n x | _ => true end) (children y)) ns &&
-    forallb (fun kd => has_doc cd DJ (fst kd) (snd kd)) cd &&
-    forallb (fun kd => (depth_f fuel (snd kd) <? fuel) &&
-                       forallb (fun c => implb (elem_eq (snd kd) c) (depth_f fuel (snd kd) <=? depth_f fuel c)) ns) cd &&
-    (depth_f fuel e <? fuel)
+    forallb (fun kd => has_doc cd DJ (fst kd) (snd kd)) cd
   end.
